@@ -187,7 +187,14 @@ class CtorWorld(GraphWorld):
     def call_method(self, ip, obj, name, args, kwargs, node):
         if isinstance(obj, GraphParamV):
             obj = SelfV()
+        if isinstance(obj, NodeMap) and name in ("items", "keys", "values") and not args:
+            n = NodeV("n-of-G")
+            return ListObj([{"items": TupleV([n, NodeAttrs("self", n)]), "keys": n, "values": NodeAttrs("self", n)}[name]])
         if isinstance(obj, SelfV):
+            if name in ("nodes", "nodes_iter") and not args and set(kwargs) <= {"data"}:
+                n = NodeV("n-of-G")
+                with_data = "data" in kwargs and ip.truth(kwargs["data"], node)
+                return ListObj([TupleV([n, NodeAttrs("self", n)])] if with_data else [n])
             if name in ("interactions_iter", "interactions") and not args and not kwargs:
                 return Triples(name == "interactions")
             if name == "is_directed" and not args:
@@ -224,12 +231,12 @@ class CtorWorld(GraphWorld):
         if isinstance(it, Triples):
             trip = TupleV([NodeV("U"), NodeV("U" if self.cfg.get("loop") else "V"), self.datadict])
             ip.assign(st.target, trip, env)
-            ip.exec_block(st.body, env)
+            ip.run_loop_body(st, env)
             return
         if isinstance(it, NodesOf):
             n = NodeV("n-of-result")
             ip.assign(st.target, n, env)
-            ip.exec_block(st.body, env)
+            ip.run_loop_body(st, env)
             return
         raise Unsupported(st, "iteration over %r" % (it,))
 
@@ -267,7 +274,7 @@ class CtorWorld(GraphWorld):
         env2[st.target.id] = lv
         self.range_ctx.append(rng)
         try:
-            ip.exec_block(st.body, env2)
+            ip.run_loop_body(st, env2)
         finally:
             self.range_ctx.pop()
         for k in env2:
@@ -542,7 +549,18 @@ class CtorChecker:
         elif calls_vu:
             pass
         nodes = [o for o in val.other if o[0] == "add_nodes_from"]
-        if not any(isinstance(o[1], SelfV) for o in nodes):
+
+        def all_nodes(arg):
+            if isinstance(arg, (SelfV, NodeMap)):
+                return True
+            if isinstance(arg, ListObj) and len(arg.items) == 1:
+                x = arg.items[0]
+                if isinstance(x, NodeV) and x.role == "n-of-G":
+                    return True
+                if isinstance(x, TupleV) and len(x.items) == 2 and isinstance(x.items[0], NodeV) and x.items[0].role == "n-of-G":
+                    return True
+            return False
+        if not any(all_nodes(o[1]) for o in nodes):
             self.add("C16.nodes", construct, "nodes-not-added", "%s does not add every node of the source "
                      "(add_nodes_from(self) missing): isolated nodes get no adjacency row" % method, wit)
         for attr, src_attr in (("graph", "graph"), ("_node", "_node")):
@@ -866,7 +884,7 @@ class EventWorld(CtorWorld):
         if isinstance(it, Events):
             ev = TupleV([NodeV("X"), NodeV("Y"), Opaque("op"), Int("tau")])
             ip.assign(st.target, ev, env)
-            ip.exec_block(st.body, env)
+            ip.run_loop_body(st, env)
             return
         return super().exec_special_for(ip, st, it, env)
 
